@@ -205,5 +205,45 @@ func TestGovcBoundedC10Denotation(t *testing.T) {
 			fmt.Printf("GOVC-FAIL name=c10-denotation restriction %q parsed as %v (%v), want %s\n", fx.text, got, err, fx.want)
 		}
 	}
+	// through the schema: a restriction narrows what the whole chain has left, also when the typedef
+	// directly derived from writes no restriction of its own
+	for _, sc := range []struct {
+		body    string
+		wantErr bool
+		leaf    string
+		want    string
+	}{
+		{`typedef a { type string { length "1..10"; } } typedef b { type a; } leaf l { type b { length "5..20"; } }`, true, "", ""},
+		{`typedef a { type string { length "2..10|20..30"; } } typedef b { type a; } typedef c { type b; } leaf l { type c { length "min..5"; } }`, false, "l", "2..5"},
+		{`typedef a { type int32 { range "1..100"; } } typedef b { type a; } leaf l { type b { range "50..200"; } }`, true, "", ""},
+		{`typedef a { type int32 { range "1..100"; } } typedef b { type a; } typedef c { type b { range "10..max"; } } leaf l { type c { range "min..20"; } }`, false, "l", "10..20"},
+		{`typedef a { type binary { length "4..8"; } } typedef b { type a; } leaf l { type b { length "0..4"; } }`, true, "", ""},
+	} {
+		evals++
+		ms := NewModules()
+		if err := ms.Parse("module m { namespace \"urn:m\"; prefix m; "+sc.body+" }", "chain.yang"); err != nil {
+			fmt.Printf("GOVC-FAIL name=c10-denotation fixed schema does not parse: %v\n", err)
+			continue
+		}
+		errs := ms.Process()
+		switch {
+		case sc.wantErr && len(errs) == 0:
+			fmt.Printf("GOVC-FAIL name=c10-denotation a restriction that admits what its chain does not is accepted: %s\n", sc.body)
+		case !sc.wantErr && len(errs) > 0:
+			fmt.Printf("GOVC-FAIL name=c10-denotation %s: %v\n", sc.body, errs)
+		case !sc.wantErr:
+			l := ToEntry(ms.Modules["m"]).Dir[sc.leaf]
+			got := ""
+			if l != nil && l.Type != nil {
+				got = l.Type.Length.String()
+				if len(l.Type.Length) == 0 {
+					got = l.Type.Range.String()
+				}
+			}
+			if got != sc.want {
+				fmt.Printf("GOVC-FAIL name=c10-denotation %s: the leaf's set is %s, want %s\n", sc.body, got, sc.want)
+			}
+		}
+	}
 	fmt.Printf("GOVC-BOUNDED name=c10-denotation-brute-force bound=%d_random_restrictions_(seed_%d)_of_<=4_parts_over_[-12,24]_and_min/max_x_6_parents evaluations=%d distinct=%d\n", rounds, seed, evals, len(seen))
 }
